@@ -832,7 +832,7 @@ func gen(t *rapid.T) Case {
 var sub = ev.Sub[Case]{Name: "resume", Repeats: 10, Q: 30, T: 900, Gen: gen, Run: runCase}
 
 func TestProp(t *testing.T)   { sub.Check(t) }
-func TestReplay(t *testing.T) { ev.ReplayTest(t, sub) }
+func TestReplay(t *testing.T) { ev.ReplayTest(t, sub, subCloseOutage) }
 
 // TestRegress: repaired defects (known_findings.json, status fixed).
 func TestRegress(t *testing.T) {
@@ -855,3 +855,133 @@ func TestRegress(t *testing.T) {
 	sub.One(t, Case{Codec: "proto", Policy: upk.Policy{Kind: "immediate"}, Writers: [][]upk.Op{ops[:4]}, Ack: upk.AckPlan{Mode: "immediate", AliasMode: "first"},
 		Cuts: []Cut{{Phase: "idle", N: 1, Withhold: []int{1, 2, 3}, AfterMs: 1300}}, Redial: "paced", Storage: "default"})
 }
+
+// ---------------------------------------------------------------------------------------------
+// the transport dies while Close is waiting for acknowledgements ("whatever the moments at which the transport dies"): the stream
+// resumes, retransmits what was not acknowledged, and Close completes with the right totals - or the stream is reported closed with
+// an error (seeded change C02/m4: a stream that was draining when the link died was never resumed; nothing was retransmitted,
+// Close failed, no closed event)
+
+type CloseOutageCase struct {
+	Chunks   int    `json:"chunks"`    // chunks written (one flush each), none acknowledged on the first connection
+	WaitUs   int    `json:"wait_us"`   // between starting Close and cutting the link
+	Redial   string `json:"redial"`    // paced | instant
+	Codec    string `json:"codec"`
+	AckFirst int    `json:"ack_first"` // this many of the chunks ARE acknowledged on the first connection
+}
+
+func runCloseOutage(c CloseOutageCase, k *ev.Case) *ev.Failure {
+	w := sim.NewWorld()
+	defer w.Dispose()
+	if c.Redial != "instant" {
+		w.DialDelay = 5 * time.Millisecond
+	}
+	b := w.Broker
+	b.OnChunk = func(inc *sim.Inc, up *sim.UpState, e *sim.Entry) {
+		m := e.Msg.(*message.UpstreamChunk)
+		if inc.Index == 0 && int(m.StreamChunk.SequenceNumber) > c.AckFirst {
+			return // never acknowledged on the first connection
+		}
+		inc.Send(&message.UpstreamChunkAck{StreamIDAlias: m.StreamIDAlias, Results: []*message.UpstreamChunkResult{{SequenceNumber: m.StreamChunk.SequenceNumber,
+			ResultCode: message.ResultCodeSucceeded, ResultString: "OK"}}, DataIDAliases: map[uint32]*message.DataID{}})
+	}
+	enc := iscp.EncodingNameProtobuf
+	if c.Codec == "json" {
+		enc = iscp.EncodingNameJSON
+	}
+	conn, err := w.Connect(iscp.WithConnEncoding(enc), iscp.WithConnPingInterval(15*time.Millisecond), iscp.WithConnPingTimeout(1500*time.Millisecond))
+	if err != nil {
+		return ev.Failf("harness", "connect: %v", err)
+	}
+	defer sim.Call(perCall, func() { conn.Close(context.Background()) })
+	rec := &upk.HookRec{}
+	ctx, cancel := sim.Ctx(perCall)
+	defer cancel()
+	up, err := conn.OpenUpstream(ctx, "session-c02-close", iscp.WithUpstreamQoS(message.QoSReliable), iscp.WithUpstreamFlushPolicyNone(), iscp.WithUpstreamClosedEventHandler(rec),
+		iscp.WithUpstreamResumedEventHandler(rec), iscp.WithUpstreamSendDataPointsHooker(rec), iscp.WithUpstreamCloseTimeout(4*time.Second))
+	if err != nil {
+		return ev.Failf("harness", "open: %v", err)
+	}
+	for i := 1; i <= c.Chunks; i++ {
+		if err := up.WriteDataPoints(ctx, upk.DataID(1), &message.DataPoint{ElapsedTime: upk.Elapsed(0, i), Payload: upk.Payload(0, i, 9)}); err != nil {
+			return ev.Failf("harness", "write: %v", err)
+		}
+		if err := up.Flush(ctx); err != nil {
+			return ev.Failf("harness", "flush: %v", err)
+		}
+	}
+	var cerr error
+	done := make(chan bool, 1)
+	go func() {
+		ok, _ := sim.Call(perCall+2*time.Second, func() {
+			cctx, cc := sim.Ctx(perCall)
+			defer cc()
+			cerr = up.Close(cctx)
+		})
+		done <- ok
+	}()
+	time.Sleep(time.Duration(c.WaitUs) * time.Microsecond)
+	w.CurrentLink().DrainThenSever(20 * time.Millisecond)
+	if ok := <-done; !ok {
+		ev.Aborted("Upstream.Close")
+		return nil // a blocked Close is C08's business
+	}
+	time.Sleep(3 * time.Millisecond)
+	reported := false
+	for _, e := range rec.ClosedEvents() {
+		if e.Err != nil {
+			reported = true
+		}
+	}
+	st := b.Upstream(up.ID)
+	hist := func() any {
+		var led []string
+		for _, e := range b.Ledger() {
+			if e.Kind == "Ping" || e.Kind == "Pong" {
+				continue
+			}
+			d := "->"
+			if e.In {
+				d = "<-"
+			}
+			led = append(led, fmt.Sprintf("%dus inc%d %s %s", e.T, e.Inc, d, e.Kind))
+		}
+		return map[string]any{"ledger": led, "close_error": fmt.Sprint(cerr), "closed_event_with_error": reported}
+	}
+	k.Label("close-across-outage")
+	k.NonTrivial(ev.JSON(c))
+	k.Sample(func() any { return c })
+	if reported {
+		k.Label("stream-reported-closed")
+		return nil
+	}
+	if cerr != nil {
+		return ev.Failf("C02.7 close-across-outage", "the link died while Close waited for %d acknowledgement(s); the connection was back at once, yet Close returned %q and no closed event carrying an error was raised", c.Chunks-c.AckFirst, cerr.Error()).WithHistory(hist())
+	}
+	// Close returned nil: every chunk not acknowledged before the cut arrived again on a later connection, and the close request is exact
+	for seq := c.AckFirst + 1; seq <= c.Chunks; seq++ {
+		again := false
+		for _, e := range st.Chunks[uint32(seq)] {
+			if e.Inc > 0 {
+				again = true
+			}
+		}
+		if !again {
+			return ev.Failf("C02.6 not-retransmitted", "chunk seq %d was unacknowledged when the link died during Close; Close returned nil but the chunk was not sent again", seq).WithHistory(hist())
+		}
+	}
+	if st.CloseReq == nil || int(st.CloseReq.TotalDataPoints) != c.Chunks || int(st.CloseReq.FinalSequenceNumber) != c.Chunks {
+		return ev.Failf("C02.5 close-totals", "close request %+v, written %d points in %d chunks", st.CloseReq, c.Chunks, c.Chunks).WithHistory(hist())
+	}
+	return nil
+}
+
+var subCloseOutage = ev.Sub[CloseOutageCase]{Name: "close-across-outage", Repeats: 10, Q: 12, T: 300,
+	Gen: func(t *rapid.T) CloseOutageCase {
+		c := CloseOutageCase{Chunks: rapid.IntRange(1, 5).Draw(t, "chunks"), WaitUs: rapid.SampledFrom([]int{0, 100, 1000, 5000, 20000}).Draw(t, "wait"),
+			Redial: rapid.SampledFrom([]string{"paced", "paced", "instant"}).Draw(t, "redial"), Codec: rapid.SampledFrom([]string{"proto", "json"}).Draw(t, "codec")}
+		c.AckFirst = rapid.IntRange(0, c.Chunks-1).Draw(t, "ackfirst")
+		return c
+	}, Run: runCloseOutage}
+
+func TestCloseOutage(t *testing.T) { subCloseOutage.Check(t) }
